@@ -72,8 +72,34 @@ def spellings_js(s):
     return {mode: "".join(esc(c, mode) for c in s) for mode in ("raw", "x", "u")}
 
 
+def attr_contexts(cname, mode, q, v):
+    """the static value v, spelled q (with its quotes, or without any), at every attribute site"""
+    cases = []
+    cases.append(("attr-value", cname, mode, '<v a=%s />' % q, v, None))
+    cases.append(("class-value", cname, mode, '<v class=%s />' % q, v, None))
+    cases.append(("style-value", cname, mode, '<v style=%s />' % q, v, None))
+    cases.append(("id-value", cname, mode, '<v id=%s />' % q, v, None))
+    cases.append(("event-value", cname, mode, '<v bind:tap=%s />' % q, v, None))
+    cases.append(("mark-value", cname, mode, '<v mark:m=%s />' % q, v, None))
+    cases.append(("data-value", cname, mode, '<v data:d=%s />' % q, v, None))
+    cases.append(("slot-attr", cname, mode, '<v slot=%s />' % q, v, None))
+    cases.append(("slot-name", cname, mode, '<slot name=%s />' % q, v, None))
+    cases.append(("generic-value", cname, mode, '<v generic:g=%s />' % q, v, None))
+    cases.append(("extra-attr-value", cname, mode, '<v extra-attr:e=%s />' % q, v, None))
+    cases.append(("wx-key", cname, mode, '<v wx:for="{{l}}" wx:key=%s />' % q, v, {"l": []}))
+    if v:
+        cases.append(("template-name", cname, mode, '<template name=%s >OK</template><template is=%s />' % (q, q), "OK", None))
+    return cases
+
+
 def context_cases(rnd):
     cases = []
+    # values written WITHOUT quotes (accepted with a ShouldQuoted warning): the value is the whole run of name characters
+    # - letters, digits, `_`, `-`, `.` - up to the white space or the end of the tag
+    for k, v in enumerate(["a-b", "row.1", "logo.png", "aspect-fit", "a_b-c.d", "1.5", "-x", "x-", "a--b..c", "Az09_"]):
+        cases.extend(attr_contexts("UNQUOTED", "unquoted-%d" % k, v, v))
+        cases.append(("attr-value", "UNQUOTED", "unquoted-end-%d" % k, "<v a=%s/>" % v, v, None))
+        cases.append(("attr-value", "UNQUOTED", "unquoted-gt-%d" % k, "<v a=%s></v>" % v, v, None))
     for cname, v in CLASS_REPS.items():
         html = spellings_html(v, rnd)
         # NUL and other controls cannot be written through numeric entities? they can: &#0; is refused by HTML5 decoders; keep raw for NUL
@@ -85,20 +111,7 @@ def context_cases(rnd):
             if "}}" in v and False:
                 continue
             cases.append(("static-text", cname, mode, "x%sy" % t, "x" + v + "y", None))
-            cases.append(("attr-value", cname, mode, '<v a="%s"/>' % t, v, None))
-            cases.append(("class-value", cname, mode, '<v class="%s"/>' % t, v, None))
-            cases.append(("style-value", cname, mode, '<v style="%s"/>' % t, v, None))
-            cases.append(("id-value", cname, mode, '<v id="%s"/>' % t, v, None))
-            cases.append(("event-value", cname, mode, '<v bind:tap="%s"/>' % t, v, None))
-            cases.append(("mark-value", cname, mode, '<v mark:m="%s"/>' % t, v, None))
-            cases.append(("data-value", cname, mode, '<v data:d="%s"/>' % t, v, None))
-            cases.append(("slot-attr", cname, mode, '<v slot="%s"/>' % t, v, None))
-            cases.append(("slot-name", cname, mode, '<slot name="%s"/>' % t, v, None))
-            cases.append(("generic-value", cname, mode, '<v generic:g="%s"/>' % t, v, None))
-            cases.append(("extra-attr-value", cname, mode, '<v extra-attr:e="%s"/>' % t, v, None))
-            cases.append(("wx-key", cname, mode, '<v wx:for="{{l}}" wx:key="%s"/>' % t, v, {"l": []}))
-            if v:
-                cases.append(("template-name", cname, mode, '<template name="%s">OK</template><template is="%s"/>' % (t, t), "OK", None))
+            cases.extend(attr_contexts(cname, mode, '"%s"' % t, v))
         for mode, t in spellings_js(v).items():
             cases.append(("string-literal", cname, "js-" + mode, "{{ '%s' }}" % t, v, None))
             cases.append(("attr-value", cname, "js-" + mode, "<v a=\"{{ '%s' }}\"/>" % t.replace('"', "\\x22"), v, None))
